@@ -1,7 +1,7 @@
 """C06: typed Builder stores and Slice loads are mutually inverse and bit-exact (TL-B encodings)."""
 from ..gen import cells as G
 from ..gen import scripts as S
-from ..translate import arith
+from ..translate import arith, bsops
 
 SPEC = dict(
     manifest=dict(
@@ -14,15 +14,30 @@ SPEC = dict(
              '(c06_sequence, induction); whenever load_X returns, preload_X returns the same and leaves the slice unchanged (c06_preload_eq_load, '
              'every kind incl. preload_address); var-int length prefixes are minimal for both signs (c06_varint_minimal) and the byte-length computations of store_var_uint/store_var_int are '
              're-translated from builder.py on every run and proved equal to the TL-B minimal lengths for ALL integers (c06_src_varint_len, c06_src_varuint_len); snake chains of ANY length into any within-capacity builder (c06_snake_depth_exact, with the depth-checking cell constructor of C01): the chain for n bytes after p prefilled bits has depth exactly 0 if n <= (1023-p)//8 else ceil((n - (1023-p)//8)/127); store_snake_bytes returns iff that is <= 1024, end_cell on the result succeeds iff it is <= 1023 (the library raises the depth error beyond), whenever the store returns load_snake_bytes gives the bytes back, and the cells are the TL-B SnakeData chain of the 127-byte chunks (c06_snake_is_snakedata). '
-             'The model is tied to the working tree by differential testing: seeded scripts run on the library and on the compiled model, and '
+             'THE TIE TO THE SOURCE: every store_* method of builder.py (store_uint/int/bits/bit/bit_int/bool/bytes/string/ref/maybe_ref/dict/var_uint/var_int/coins/'
+             'cell/slice/address for None, ExternalAddress via its to_cell() + end_cell, Address with anycast), every load_*/preload_* method of slice.py '
+             '(bit/bool/bits/uint/int/bytes/string/ref/maybe_ref/dict/var_uint/var_int/coins/address, skip_bits, copy) and the TvmBitarray methods they call '
+             '(extend/append/frombytes/check_overflow/check_underflow/__delitem__) are re-translated WHOLE from the source on every run '
+             '(harness/translate/pymeth.py -> Generated/BuilderOps.lean, SliceOps.lean: state-passing functions that keep the partial writes of a raising call) and '
+             'Lean proves for ALL arguments and states that each regenerated method equals the hand model operation (c06_src_store, c06_src_load: same decision to raise, '
+             'same state afterwards, same value); hence c06_src_bits_exact, c06_src_store_load, c06_src_preload_eq_load state the property theorems of the regenerated methods. '
+             'A source change of these methods breaks a proof obligation (then the failing-input search replays the differing operation through the oracle). '
+             'Still hand model + differential testing: store_snake_bytes / load_snake_bytes / store_snake_string, the str and TvmBitarray argument forms of store_bit / store_bits, '
+             'Address(str) parsing, the HashMap parse behind load_dict (C09). Seeded scripts run on the library and on the compiled model, and '
              'each script is also checked on the library alone against an independent Python TL-B encoder, peek/load round trip and leftovers.',
-        level_note='Proved for all inputs: the statements above, about Model/Builder.lean. Only sampled: that builder.py/slice.py/tvm_bitarray.py/'
-                   'address.py behave as the model (correspondence on generated scripts; bitarray int2ba/ba2int/slicing and str.encode/decode are '
+        level_note='Proved for all inputs: the statements above, about Model/Builder.lean, and the equality of the regenerated methods with that model. Trusted for the '
+                   'regenerated part: the translator pymeth.py (+ pyobj/pybytes/pyarith expression rules), the declared interface in harness/translate/bsops.py (attribute types, '
+                   'property aliases, constructors of Address / ExternalAddress / Slice, a str travels as its UTF-8 bytes, HashMap.parse is a function of the referenced cell, '
+                   'the cell constructor is a parameter assumed to build reference-free cells) and lean/TonVerif/PyBits.lean (meaning of int2ba, ba2int, bitarray indexing / '
+                   'slice deletion / append); all validated on every change by Lean evaluation of the regenerated methods = the library on ~400 op scripts. Only sampled: that the '
+                   'remaining methods (snake, argument forms, Address(str)) behave as the model (correspondence on generated scripts; str.encode/decode are '
                    'assumed as modelled). Not modelled: load_dict parses the referenced HashMap (C09), str<->UTF-8, Python recursion limit for very '
                    'long snake chains. Trusted: Spec/TlbPrim.lean + Spec/TlbVal.lean say what TL-B says; Lean kernel; harness/gen/scripts.py.',
         technique='Lean 4 proof (hand model, OpSpec calculus + closed forms of the slice reads) + differential correspondence with the library '
-                  '+ source-regenerated arithmetic lemmas'),
-    translators=[('builder.py var-int byte lengths->Generated/VarLen.lean', arith.regenerator('VarLen'))],
+                  '+ source-regenerated methods (stateful-method translator, equality with the hand model proved for all inputs) and arithmetic lemmas'),
+    translators=[('builder.py var-int byte lengths->Generated/VarLen.lean', arith.regenerator('VarLen')),
+                 ('builder.py/tvm_bitarray.py store_* methods->Generated/BuilderOps.lean', bsops.regenerator('BuilderOps')),
+                 ('slice.py/tvm_bitarray.py load_*/preload_* methods->Generated/SliceOps.lean', bsops.regenerator('SliceOps'))],
     design_ref='DESIGN.md §6 C06',
     rule='seeded sequences of typed values that fit a cell (ints of widths 1..257 at 0/1/max/top-bit/min/-1, var-ints of every byte-length '
          'class incl. top-bit-set values, coins, bits, bytes, refs, maybe-refs, addr_none/extern(len 0..511)/std(+anycast)), snake byte strings '
@@ -31,7 +46,8 @@ SPEC = dict(
          'the Lean model; distinct = distinct script; non-trivial = script has >= 1 value',
     trusted_base=['Model/Builder.lean mirrors builder.py/slice.py/TvmBitarray/address.to_cell by hand (BOp/SOp state functions)',
                   'bitarray int2ba/ba2int/slicing semantics as modelled (probed)', 'harness/gen/scripts.py: op tokens, executors, TL-B encoder',
-                  'harness/translate/pyarith.py + arith.py (Python int arithmetic -> Lean) and lean/TonVerif/PyInt.lean (meaning of bit_length / math.ceil(a / 8)) for the c06_src_* theorems'],
+                  'harness/translate/pyarith.py + arith.py (Python int arithmetic -> Lean) and lean/TonVerif/PyInt.lean (meaning of bit_length / math.ceil(a / 8)) for the c06_src_* theorems',
+                  'harness/translate/pymeth.py + bsops.py (stateful methods -> Lean; declared interface) and lean/TonVerif/PyBits.lean (int2ba / ba2int / bitarray operations) for c06_src_store / c06_src_load; validated against the library on op scripts'],
     assumptions=['correspondence is sampled differential testing', 'str.encode/decode are inverse on valid UTF-8 (strings are modelled as bytes)'],
 )
 
@@ -281,10 +297,56 @@ def src_search(ctx, cells):
     return len(ctx.failures) > n0
 
 
+LOAD_TO_STORE = {'lu': 'u', 'pu': 'u', 'li': 'i', 'pi': 'i', 'lvu': 'vu', 'pvu': 'vu', 'lvi': 'vi', 'pvi': 'vi', 'lc': 'c', 'pc': 'c', 'lb': 'b', 'pb': 'b',
+                 'lby': 'by', 'pby': 'by', 'bit': 'bit', 'pbit': 'bit', 'lbool': 'bit', 'pbool': 'bit', 'sk': 'b', 'lr': 'r', 'lmr': 'mr', 'pmr': 'mr', 'pr': 'r', 'la': 'a', 'pa': 'a', 'ld': 'd', 'pd': 'd', 'ls': 's', 'ps': 's'}
+
+
+def src_search_methods(ctx):
+    """Search mode only: where a regenerated METHOD (Generated/BuilderOps.lean, SliceOps.lean) differs from the hand model it is proved
+    equal to (evaluated by Lean on the validation scripts), the store / load of that kind at that fill level goes through the round-trip
+    oracle.  True = a concrete failing input was found."""
+    n0 = len(ctx.failures)
+    dag = [tuple(n) for n in bsops.CTX_DAG]
+    cells = G.lib_build(dag)
+    kinds = []
+    for (fb, fr, toks), idx in bsops.diff_scripts(ctx, 'B', bsops.builder_scripts()):
+        for i in idx:
+            k = toks[i].split(':')[0]
+            if k not in kinds:
+                kinds.append(k)
+    for (bits, refs, toks), idx in bsops.diff_scripts(ctx, 'S', bsops.slice_scripts()):
+        for i in idx:
+            k = LOAD_TO_STORE.get(toks[i].split(':')[0])
+            if k and k not in kinds:
+                kinds.append(k)
+    kinds = ['bit' if k in ('bool', 'bi') else k for k in kinds]
+    if any(k in ('cell', 'sl') for k in kinds):
+        kinds += ['b', 'r']
+    seen = set()
+    for fb, fr, toks in bsops.builder_scripts():
+        for t in toks:
+            k = t.split(':')[0]
+            if k not in kinds or t in seen or (k == 'bit' and t not in ('bit:0', 'bit:1')):
+                continue
+            seen.add(t)
+            try:
+                e = S.enc_tok(t, cells)
+            except (AssertionError, ValueError):
+                continue
+            if e is None:
+                continue
+            for pre in (0, 1, 1023 - len(e[0])):
+                if 0 <= pre and pre + len(e[0]) <= 1023:
+                    check_roundtrip(ctx, dag, cells, ([f'b:{"0" * pre}'] if pre else []) + [t] + (['bit:1'] if pre + len(e[0]) < 1023 else []), 'src-method')
+            if len(ctx.failures) > n0:
+                return True
+    return len(ctx.failures) > n0
+
+
 def run(ctx):
     rng = ctx.rng
     cells = G.lib_build(LEAF_DAG)
-    if ctx.search and src_search(ctx, cells):
+    if ctx.search and (src_search(ctx, cells) or src_search_methods(ctx)):
         return
     # context with a real dictionary cell (HashMap(8), 3 entries) for store_dict / load_dict / preload_dict
     ddag = LEAF_DAG + S.shift_dag(S.dict_dag(), len(LEAF_DAG))
